@@ -1,6 +1,7 @@
 package main
 
 import (
+	"bytes"
 	"fmt"
 	"go/ast"
 	"go/parser"
@@ -100,7 +101,14 @@ func judgeStdOutput(src []byte, paths []string, declared func(path string) []str
 	return probs
 }
 
-func (sc stdRefCase) render() ([]byte, string) {
+// c18Variants: the ways in which the one-reference files are produced. 0: fresh File rendered once; 1: the second
+// render of the same File; 2: the File also carries a cgo preamble (directives only, nothing refers to C); 3: the
+// references are first rendered as fragments with the File (RenderWithFile), then the File is rendered.
+var c18Variants = []string{"fresh", "second-render", "with-cgo-preamble", "after-RenderWithFile"}
+
+func (sc stdRefCase) render() ([]byte, string) { return sc.renderVariant(0) }
+
+func (sc stdRefCase) renderVariant(variant int) ([]byte, string) {
 	f := jen.NewFile("p")
 	f.PackagePrefix = sc.Prefix
 	if sc.Hints != nil {
@@ -112,7 +120,20 @@ func (sc stdRefCase) render() ([]byte, string) {
 		}
 	}
 	for i, p := range sc.Paths {
-		f.Var().Id(fmt.Sprintf("V%d", i)).Op("=").Qual(p, fmt.Sprintf("StdSym%d", i))
+		st := f.Var().Id(fmt.Sprintf("V%d", i)).Op("=").Qual(p, fmt.Sprintf("StdSym%d", i))
+		if variant == 3 {
+			if err := st.RenderWithFile(&bytes.Buffer{}, f); err != nil {
+				return nil, "RenderWithFile: " + err.Error()
+			}
+		}
+	}
+	switch variant {
+	case 1:
+		if _, fail := renderFile(f); fail != "" {
+			return nil, fail
+		}
+	case 2:
+		f.CgoPreamble("#cgo LDFLAGS: -lm")
 	}
 	return renderFile(f)
 }
@@ -127,6 +148,18 @@ func stdDeclared(path string) []string {
 }
 
 func c18Case(r *mon.Run, sc stdRefCase, c mon.Case) {
+	for v := 1; v < len(c18Variants); v++ {
+		src, fail := sc.renderVariant(v)
+		if fail != "" {
+			r.Violate("std-render-failure", c, "%v (%s): %s", sc.Paths, c18Variants[v], fail)
+			continue
+		}
+		for _, p := range judgeStdOutput(src, sc.Paths, stdDeclared) {
+			r.Violate("std-name", c, "[%s, %s] %s\noutput:\n%s", sc.Label, c18Variants[v], p, src)
+		}
+		r.Count("renderings."+c18Variants[v], 1)
+	}
+	r.Count("renderings."+c18Variants[0], 1)
 	src, fail := sc.render()
 	if fail != "" {
 		r.Violate("std-render-failure", c, "%v: %s", sc.Paths, fail)
@@ -305,7 +338,7 @@ func runC18(r *mon.Run) {
 		r.Inconclusive(fmt.Sprintf("only %d package directories found under %s", len(std), oracle.GorootSrc()))
 		return
 	}
-	r.SetRule(fmt.Sprintf("every importable package directory of %s (%d; cmd, testdata, vendor, _/. excluded), alone with and without PackagePrefix; every ordered pair (and group) of packages declaring the same name or sharing the last path element (modulo /vN); all packages in one file in two orders; then the same single-reference and pair cases with ImportNames(table produced by running /repo/gennames), and every entry of that table against the package clauses. Enumerated completely in both tiers. non-trivial = every case; distinct by (label, paths, prefix)", oracle.GorootSrc(), len(std)))
+	r.SetRule(fmt.Sprintf("every importable package directory of %s (%d; cmd, testdata, vendor, _/. excluded), alone with and without PackagePrefix, each case produced four ways (fresh File; second render of the same File; File with a cgo preamble nothing refers to; after the references were rendered with RenderWithFile); every ordered pair (and group) of packages declaring the same name or sharing the last path element (modulo /vN); all packages in one file in two orders; then the same single-reference and pair cases with ImportNames(table produced by running /repo/gennames), and every entry of that table against the package clauses. Enumerated completely in both tiers. non-trivial = every case; distinct by (label, paths, prefix)", oracle.GorootSrc(), len(std)))
 	r.SetExhaustive(true)
 	r.Put("std_package_dirs", len(std))
 	c18NegControls(r)
